@@ -93,6 +93,32 @@ def Val.wf : Val → Prop
 instance : DecidablePred Val.wf := fun v => by
   cases v <;> unfold Val.wf <;> infer_instance
 
+/-- which reader a byte string is handed to -/
+inductive Kind where
+  | bool | i8 | i16 | i32 | i64 | double | binary | str | field | map | list | set | msg
+deriving Repr, DecidableEq
+
+/-- why a byte string cannot be read as `k` — the first failure in reading order -/
+inductive Cause where
+  | truncated | negativeSize | badVersion
+deriving Repr, DecidableEq
+
+/-- Thrift's protocol-exception type ids: INVALID_DATA = 1, NEGATIVE_SIZE = 2, BAD_VERSION = 4 -/
+def Cause.typeId : Cause → Int
+  | .truncated => 1
+  | .negativeSize => 2
+  | .badVersion => 4
+
+/-- independent classification of a failed read: a string/binary whose 4-byte length has the sign bit
+    set has a negative size; a message header whose first word is not 0x8001_____ has a bad
+    version; everything else that fails is short of bytes (a negative *name* length inside a
+    message header counts as invalid data, DESIGN §6.5) -/
+def cause (k : Kind) (b : Bytes) : Cause :=
+  match k with
+  | .binary | .str => if 4 ≤ b.length ∧ rd32 b ≥ 2^31 then .negativeSize else .truncated
+  | .msg => if 4 ≤ b.length ∧ rd32 b / 65536 ≠ 0x8001 then .badVersion else .truncated
+  | _ => .truncated
+
 /-! big-endian, two's complement, length prefix — one instance of each, by evaluation -/
 example : enc (.i16 0x0102) = [0x01, 0x02] := by decide
 example : enc (.i32 0x01020304) = [0x01, 0x02, 0x03, 0x04] := by decide
